@@ -12,6 +12,7 @@ CONSTANTS
   DefaultLife = 100
   PermTO = 40
   BindTO = 30
+  SlowDial = TRUE
   MaxDepth = 6
 CONSTRAINT DepthBound
 INVARIANTS TypeOK C15_NothingAfterClose
